@@ -210,7 +210,14 @@ def run(ctx):
             else:
                 r2.ok("%s:emoji" % mode, "Some(emoji) ⇒ push(Rank::emoji(emoji)) unconditionally")
         if mode == "phonetic":
-            lit = [(p, gg) for p, gg in arm_pushes if p.item is not None and peel_conv(p.item).k == "arg"]
+            lit = [(p, gg) for p, gg in arm_pushes if p.item is not None and peel_conv(p.item).k == "arg" and not p.closure]
+            # the literal handed over as `(text != preceding).then(|| Rank::last_ranked(text.to_owned(), 1))` to `extend`: the candidate is built from
+            # the captured typed text and exists only where the condition of `then` holds
+            for p, gg in arm_pushes:
+                if p.closure and p.kind == "extend" and p.item is not None:
+                    cv_ = builders.creator_value(prog, p)
+                    if cv_ is not None and cv_[0].k == "arg" and cv_[1].key == b.key:
+                        lit.append((p, list(gg) + [(strip_refs(d_), pol_, s_) for (d_, pol_, s_) in builders.closure_run_guards(prog, p.closure)]))
             if len(lit) != 1:
                 r2.violation("phonetic:literal", "the emoticon arm keeps the literal typed text %d times (expected once)" % len(lit), site_of(b, ebb))
             else:
